@@ -37,7 +37,7 @@ def cases(tier, seed):
     N = 3 if tier == "quick" else 4
     deg = 2 if tier == "quick" else 3
     lim = 5 if tier == "quick" else 9
-    for text in base_programs(tier) + abstraction_programs(tier):
+    for text in base_programs(tier, extended=True) + abstraction_programs(tier):
         out.append({"input": {"text": text, "goals": gen.goals_for(text, deg, lim)}, "N": N})
     return out
 
